@@ -194,7 +194,7 @@ oldest, `k = 0`) is notified -/
 def notifyOne (s : State) (k : Nat) : State :=
   match s.waitq[k % s.waitq.length]? with
   | none => s
-  | some w => { s with waitq := s.waitq.eraseIdx (k % s.waitq.length), woken := upd s.woken w true }
+  | some w => { s with waitq := s.waitq.erase w, woken := upd s.woken w true }
 
 /-- the closure of job `j` is destroyed on thread `t` without having been invoked -/
 def dropJob (c : Cfg) (s : State) (t j : Nat) : State × List Ev :=
@@ -268,7 +268,7 @@ def stepBodyEnd (s : State) (t : Nat) : State × List Ev × Outcome :=
       else ({ s with fut := upd s.fut j Fut.value, pc := upd s.pc t Pc.wFlush }, [], Outcome.cont)
     else (setPc s t Pc.wFlush, [], Outcome.cont)
 
-def stepIdle (c : Cfg) (s : State) (t k : Nat) : State × List Ev × Outcome :=
+def stepIdle (s : State) (t k : Nat) : State × List Ev × Outcome :=
   match s.todo t with
   | [] =>
     match s.ret t with
@@ -372,7 +372,7 @@ def stepWAfterJob (c : Cfg) (s : State) (t : Nat) : State × List Ev × Outcome 
 /-- one small step of thread `t`; `k` resolves the only nondeterminism (which waiter `notify_one` wakes) -/
 def step (c : Cfg) (s : State) (t k : Nat) : State × List Ev × Outcome :=
   match s.pc t with
-  | Pc.idle => stepIdle c s t k
+  | Pc.idle => stepIdle s t k
   | Pc.afterEnq j acc => stepAfterEnq c s t j acc
   | Pc.stopJoin => stepStopJoin s t
   | Pc.joinBlocked => stepJoinBlocked s t
@@ -406,5 +406,13 @@ def threadStep (c : Cfg) : Nat → State → Nat → State × List Ev
     match step c s t 0 with
     | (s1, e1, Outcome.cont) => ((threadStep c fuel s1 t).1, e1 ++ (threadStep c fuel s1 t).2)
     | (s1, e1, _) => (s1, e1)
+
+/-- a scheduled step: thread `t` moves if it is enabled; `k` picks the waiter a `notify_one` wakes -/
+def sstep (c : Cfg) (s : State) (tk : Nat × Nat) : State :=
+  if enabled s tk.1 then (step c s tk.1 tk.2).1 else s
+
+def run (c : Cfg) (s : State) : List (Nat × Nat) → State
+  | [] => s
+  | tk :: rest => run c (sstep c s tk) rest
 
 end Cocls.Pool
